@@ -204,17 +204,13 @@ class Image(Species):
         assert im_l.energy is not None, "Left image energy must be set"
         assert im_r.energy is not None, "Right image energy must be set"
 
-        # ΔV_i^max
-        dv_max = max(
-            np.abs(im_r.energy - self.energy),
-            np.abs(im_l.energy - self.energy),
-        )
+        # Energy differences to the neighbours, both in this image's units
+        dv_r = np.abs(self.energy - im_r.energy)
+        dv_l = np.abs(self.energy - im_l.energy)
 
-        # ΔV_i^min
-        dv_min = min(
-            np.abs(im_r.energy - self.energy),
-            np.abs(im_l.energy - self.energy),
-        )
+        # ΔV_i^max and ΔV_i^min
+        dv_max = max(dv_r, dv_l)
+        dv_min = min(dv_r, dv_l)
 
         # x_i-1,   x_i,   x_i+1
         x_l, x, x_r = [
